@@ -833,6 +833,11 @@ func UpdateMinMax(stats *SegStats, value sutils.CValueEnclosure) {
 
 func (ss *SegStats) Merge(other *SegStats) {
 	ss.Count += other.Count
+	if other.IsNumeric {
+		// As at ingest time (addSegStatsNums), a column counts as numeric once any part of it holds numbers. Without
+		// this the flag of whichever part was merged first decided whether sum/avg/... of the merged stats are computed.
+		ss.IsNumeric = true
+	}
 	ss.Records = append(ss.Records, other.Records...)
 	if ss.Hll != nil && other.Hll != nil {
 		err := ss.Hll.StrictUnion(other.Hll.Hll)
